@@ -432,7 +432,7 @@ def warmup32(ctx, tf):
     energy contract."""
     rng = ctx.rng('c17-p32')
     # single interfaces: one-entry stack == textbook Fresnel
-    for _ in range(ctx.share(ctx.pick(120, 4000))):
+    for _ in range(ctx.share(ctx.pick(240, 4000))):
         n0 = 1.0 if rng.random() < 0.4 else float(rng.uniform(1, 1.7))
         n1 = float(rng.uniform(1, 4))
         aoi = 0.0 if rng.random() < 0.2 else float(rng.uniform(0, max_aoi(n0, n1)))
@@ -455,7 +455,7 @@ def warmup32(ctx, tf):
                                   'the textbook Fresnel coefficients beyond single-precision round-off', desc, r=[complex(sr), rr], t=[abs(complex(stt)), abs(tt)])
     # thin stacks against the Airy reference in the four (array dtype, precision) combinations; thick / deep ones: energy only
     cfgs = [('float64', 32), ('float32', 32), ('float32', 64)]
-    for it in range(ctx.share(ctx.pick(240, 8000))):
+    for it in range(ctx.share(ctx.pick(480, 8000))):
         dt, prec = cfgs[it % 3]
         thin = it % 4 != 3
         L = 1 + it % 4 if thin else int(rng.integers(1, 21))
@@ -484,7 +484,7 @@ def warmup32(ctx, tf):
                     else:
                         tf.multilayer_stack_rt(arr, wl, pol, aoi=aoi, ambient_index=n0)        # the energy contract decides
     # batched == loop in single precision
-    for it in range(ctx.share(ctx.pick(24, 800))):
+    for it in range(ctx.share(ctx.pick(48, 800))):
         g = np.random.default_rng(ctx.subseed(rng))
         L = int(g.integers(1, 8))
         trail = [(3,), (2, 3), (1,), (2, 1, 2)][it % 4]
@@ -550,7 +550,7 @@ def singles(ctx, tf, rng):
                         'class': f'iface:{kind}:{cls}' + (':array-theta' if arr else '') + (f':{num}' if num != 'py' else '')}
                 ctx.case(desc, nontrivial=(n0 != n1))
                 single_interface(ctx, tf, n0, n1, aoi, 0.0, 0.5, desc, array_theta=arr, num=num)
-    for _ in range(ctx.share(ctx.pick(600, 40000))):
+    for _ in range(ctx.share(ctx.pick(1500, 40000))):
         n0 = 1.0 if rng.random() < 0.4 else float(rng.uniform(1, 1.7))
         n1 = float(rng.uniform(1, 4))
         amax = max_aoi(n0, n1)
@@ -573,7 +573,7 @@ CONTAINERS = ['list', 'ndarray', 'complex-ndarray', 'fortran-ndarray', 'strided-
 
 def stacks(ctx, tf, rng):
     Lmax = ctx.pick(20, 40)
-    nst = ctx.share(ctx.pick(1000, 100000))
+    nst = ctx.share(ctx.pick(3000, 100000))
     for it in range(nst):
         # every layer count 1..Lmax first (twice: lossless and with absorbing inner layers), then random with a tail of deep stacks
         if it < 2 * Lmax:
@@ -648,7 +648,7 @@ def batched(ctx, tf, rng):
             for cplx in (False, True):
                 for ob in (False, True):
                     combos.append((trail, tcls, L, cplx, ob))
-    reps = ctx.pick(1, 16)
+    reps = ctx.pick(2, 16)
     k = -1
     for rep in range(reps):
         for trail, tcls, L, cplx, ob in combos:
@@ -710,7 +710,7 @@ def histories(ctx, tf):
     inside a batched call.  Every call is judged against the Airy recursion (a process-independent reference); a failure
     that the plain stack workload already showed in this process keeps the plain key."""
     rng = ctx.rng('c17-history')
-    nh = ctx.pick(40, 4000)
+    nh = ctx.pick(120, 4000)
     for h in range(nh):
         if not ctx.mine(h):
             continue
